@@ -9,6 +9,7 @@
 //	{"id","mode":"fields","repo":"/repo"}                       C19: enumerate the plantable fields of definition.go
 //	{"id","mode":"canary","entry":"LoadYAML","path":"steps[].command","variant":"str","shape":"dq-mid"}   C19 canary
 //	{"id","mode":"shapes"}                                      C19: the lexical shapes a canary text is planted in
+//	{"id","mode":"display","path","variant","shape","state"}    C19: the same documents through the real client + API (display.go)
 //
 // Tree encoding (space separated, prefix order): n | t | f | i<dec> | d<yaml float text> | s<hex utf-8> |
 // l<count> <tree>*count | m<count> (<key tree> <value tree>)*count
@@ -576,7 +577,7 @@ func fieldList(repo string) ([]plant, error) {
 // text, quoted, indented, `$(…)`), each also carrying a ${VAR} reference. The SAME set is planted in every
 // field, so a guard that depends on the shape of the value is exercised wherever it sits.
 var canaryShapes = []string{"bare", "named-bare", "dq-start", "dq-mid", "dq-end", "dq-only", "named-dq", "named-dq-escaped",
-	"multi", "multi-dq-last", "embedded", "sq", "indented", "dollar-paren", "two-commands"}
+	"multi", "multi-dq-last", "embedded", "sq", "indented", "dollar-paren", "two-commands", "dq-arg-then-bare", "sq-arg-then-bare"}
 
 func canaryText(shape, file string) string {
 	bt := "`touch " + file + "`"
@@ -612,6 +613,12 @@ func canaryText(shape, file string) string {
 		return "$(touch " + file + ")" + v
 	case "two-commands":
 		return "`true` and " + bt
+	case "dq-arg-then-bare":
+		// a command line with a quoted argument AND a substitution outside the quotes (a splitter that treats command
+		// lines with quote characters differently — e.g. re-splits them shell-like for display — runs this one)
+		return `echo "report for" ` + bt + v
+	case "sq-arg-then-bare":
+		return `echo 'all done' ` + bt
 	}
 	return bt + v
 }
@@ -725,6 +732,11 @@ func canaryDoc(path, variant, canary string) string {
 		}
 	}
 	plantAt(doc, segs, leaf)
+	if len(segs) >= 2 && segs[len(segs)-1] == "params" && segs[0] != "functions[]" {
+		// the parameters of a sub-workflow step are part of its command line (parseSubWorkflow: "<run> <params>") only
+		// when the step runs a sub-workflow: the companion `run:` makes the position a command position
+		plantAt(doc, append(append([]string{}, segs[:len(segs)-1]...), "run"), str("subdag"))
+	}
 	var b strings.Builder
 	emit(doc, &b)
 	b.WriteByte('\n')
@@ -868,6 +880,8 @@ func main() {
 				r = map[string]any{"id": c["id"], "shapes": canaryShapes}
 			case "canary":
 				r = runCanary(c)
+			case "display":
+				r = runDisplay(c)
 			default:
 				r = map[string]any{"id": c["id"], "bad": "mode"}
 			}
